@@ -276,7 +276,9 @@ var accessorTable = map[string]string{
 	"HasProgram": "program", "HasGOOS": "goos", "HasGOARCH": "goarch", "HasGoVersion": "goversion",
 }
 
-func c01Tables(c *Ctx, m *Module) {
+func c01Tables(c *Ctx, m *Module) { c01TablesAs(c, m, "C01") }
+
+func c01TablesAs(c *Ctx, m *Module, pfx string) {
 	r := c.R
 	nc := m.Func("internal/config", "NewConfig")
 	lists := map[string]bool{"Versions": true, "Counters": true, "Stacks": true}
@@ -311,43 +313,43 @@ func c01Tables(c *Ctx, m *Module) {
 			sl = append(sl, f)
 		}
 		sort.Strings(sl)
-		r.Check("C01.table-provenance", "NewConfig/"+tbl+" written from "+strings.Join(sl, "+"), m.Pos(mu.Pos()), len(sl) == 1 && sl[0] == tableSource[tbl],
+		r.Check(pfx+".table-provenance", "NewConfig/"+tbl+" written from "+strings.Join(sl, "+"), m.Pos(mu.Pos()), len(sl) == 1 && sl[0] == tableSource[tbl],
 			fmt.Sprintf("table %s must be written only from the %s list of the program config (one table, one list); this write draws its key from {%s}", tbl, tableSource[tbl], strings.Join(sl, ",")))
 		// key shape pgkey{p.Name, <elem>}
 		if lit, ok := structLit(mu.Key); ok {
 			_, pf, okP := fieldLoad(lit["program"])
-			r.Check("C01.expand", "NewConfig/"+tbl+" key.program", m.Pos(mu.Pos()), okP && pf == "Name", "the program part of the key must be the program's Name; got "+describe(lit["program"]))
+			r.Check(pfx+".expand", "NewConfig/"+tbl+" key.program", m.Pos(mu.Pos()), okP && pf == "Name", "the program part of the key must be the program's Name; got "+describe(lit["program"]))
 			kd := describe(lit["key"])
 			switch tbl {
 			case "pgcounter", "rate":
 				okK := strings.HasPrefix(kd, "internal/config.Expand(") && strings.Contains(kd, ".Name)[")
-				r.Check("C01.expand", "NewConfig/"+tbl+" key is an Expand() result", m.Pos(mu.Pos()), okK, "counter keys must be the elements of Expand(c.Name); got "+kd)
+				r.Check(pfx+".expand", "NewConfig/"+tbl+" key is an Expand() result", m.Pos(mu.Pos()), okK, "counter keys must be the elements of Expand(c.Name); got "+kd)
 			case "pgstack", "stackrate":
 				_, kf, okK := fieldLoad(lit["key"])
-				r.Check("C01.expand", "NewConfig/"+tbl+" key is the stack's Name", m.Pos(mu.Pos()), okK && kf == "Name", "stack keys must be the configured stack Name; got "+kd)
+				r.Check(pfx+".expand", "NewConfig/"+tbl+" key is the stack's Name", m.Pos(mu.Pos()), okK && kf == "Name", "stack keys must be the configured stack Name; got "+kd)
 			}
 		} else {
-			r.Check("C01.expand", "NewConfig/"+tbl+" key shape", m.Pos(mu.Pos()), false, "key is not a pgkey literal: "+describe(mu.Key))
+			r.Check(pfx+".expand", "NewConfig/"+tbl+" key shape", m.Pos(mu.Pos()), false, "key is not a pgkey literal: "+describe(mu.Key))
 		}
 		// value
 		switch tbl {
 		case "rate", "stackrate":
 			_, vf, okV := fieldLoad(mu.Value)
-			r.Check("C01.rate-verbatim", "NewConfig/"+tbl+" value", m.Pos(mu.Pos()), okV && vf == "Rate",
+			r.Check(pfx+".rate-verbatim", "NewConfig/"+tbl+" value", m.Pos(mu.Pos()), okV && vf == "Rate",
 				"the rate recorded must be the configured Rate field itself (no defaulting or scaling); got "+describe(mu.Value))
 		default:
 			k, isC := constOf(mu.Value)
-			r.Check("C01.expand", "NewConfig/"+tbl+" value", m.Pos(mu.Pos()), isC && k == "true", "set tables store the constant true; got "+describe(mu.Value))
+			r.Check(pfx+".expand", "NewConfig/"+tbl+" value", m.Pos(mu.Pos()), isC && k == "true", "set tables store the constant true; got "+describe(mu.Value))
 		}
 	}
 	for tbl := range tableSource {
-		r.Check("C01.table-provenance", "NewConfig/"+tbl+" has a writer", m.Pos(nc.Pos()), len(writers[tbl]) >= 1, "every lookup table must be filled by NewConfig")
+		r.Check(pfx+".table-provenance", "NewConfig/"+tbl+" has a writer", m.Pos(nc.Pos()), len(writers[tbl]) >= 1, "every lookup table must be filled by NewConfig")
 	}
 	// accessors read the table of their kind with key pgkey{program, name}
 	for meth, tbl := range accessorTable {
 		fn := m.FuncOpt("internal/config", "Config."+meth)
 		if fn == nil {
-			r.Check("C01.table-provenance", "accessor "+meth, "-", false, "missing accessor")
+			r.Check(pfx+".table-provenance", "accessor "+meth, "-", false, "missing accessor")
 			continue
 		}
 		okRead := false
@@ -360,13 +362,13 @@ func c01Tables(c *Ctx, m *Module) {
 						okRead = true
 						if lit, isLit := structLit(l.Index); isLit {
 							okKey := lit["program"] == ssa.Value(fn.Params[1]) && lit["key"] == ssa.Value(fn.Params[2])
-							r.Check("C01.table-provenance", "accessor "+meth+" key", m.Pos(l.Pos()), okKey, "the accessor must look up pgkey{program, name} built from its own parameters in that order")
+							r.Check(pfx+".table-provenance", "accessor "+meth+" key", m.Pos(l.Pos()), okKey, "the accessor must look up pgkey{program, name} built from its own parameters in that order")
 						}
 					}
 				}
 			}
 		}
-		r.Check("C01.table-provenance", "accessor "+meth+" reads "+tbl, m.Pos(fn.Pos()), okRead && len(got) == 1, fmt.Sprintf("accessor %s must read exactly table %s; reads %v", meth, tbl, got))
+		r.Check(pfx+".table-provenance", "accessor "+meth+" reads "+tbl, m.Pos(fn.Pos()), okRead && len(got) == 1, fmt.Sprintf("accessor %s must read exactly table %s; reads %v", meth, tbl, got))
 	}
 	// only NewConfig writes the tables
 	for _, fn := range m.PkgFuncs("internal/config") {
@@ -377,13 +379,13 @@ func c01Tables(c *Ctx, m *Module) {
 			if mu, ok := in.(*ssa.MapUpdate); ok {
 				if _, f, ok := fieldLoad(mu.Map); ok {
 					if _, tracked := accessorTable["x"]; !tracked && (tableSource[f] != "" || f == "program" || f == "goos" || f == "goarch" || f == "goversion") {
-						r.Check("C01.table-provenance", "write to "+f+" outside NewConfig in "+fname(fn), m.Pos(mu.Pos()), false, "lookup tables are immutable after construction")
+						r.Check(pfx+".table-provenance", "write to "+f+" outside NewConfig in "+fname(fn), m.Pos(mu.Pos()), false, "lookup tables are immutable after construction")
 					}
 				}
 			}
 		}
 	}
-	r.Floor("C01.table-provenance", 14)
+	r.Floor(pfx+".table-provenance", 14)
 }
 
 // ---- sink -------------------------------------------------------------------------
